@@ -11,7 +11,7 @@ _evu = _load('events')
 NAME = 'typed'
 FEATURES = []
 USES = ['use vstd::string::*;', 'use vstd::utf8::*;']
-PRELUDE = ['common.shim.rs', 'error.spec.rs', 'evnodes.spec.rs', 'str.shim.rs', 'scalars.spec.rs', 'base64.spec.rs', 'typed.shim.rs']
+PRELUDE = ['common.shim.rs', 'error.spec.rs', 'evnodes.spec.rs', 'str.shim.rs', 'scalars.spec.rs', 'base64.spec.rs', 'crop.spec.rs', 'crop.shim.rs', 'plain.spec.rs', 'plain.shim.rs', 'typed.shim.rs']
 SUBST = SUBST_COMMON + [(r"Cow<'(a|de|_), str>", r"CowStr<'\1>")]
 D = 'src/de.rs'
 YD = 'impl de::Deserializer for YamlDeserializer/'
@@ -103,4 +103,67 @@ ITEMS = location_types() + budget_types() + error_types() + [
                     ('config', 'this.cfg.legacy_octal_numbers == legacy')],
                  ensures=[('at_end', 'rest0.len() > (1 + out@.len() as int) && rest0[(1 + out@.len() as int)] is SeqEnd && this.ev.rest() == rest0.skip((out@.len() as int + 2))')],
                  decreases='rest0.len() - out@.len()')}),
+    # ---- the null tables (C06: "quoted scalars are never taken for null") ----
+    dict(src='src/parse_scalars.rs', path='fn scalar_is_nullish', props=['C06', 'C05'],
+         rewrites=[(r'value\.is_empty\(\)', 'pl_str_is_empty(value)', None, 'R8'), (r'value == "~"', 'pl_str_eq(value, "~")', None, 'R8'),
+                   (r'value\.eq_ignore_ascii_case\("null"\)', 'pl_str_eq_ci(value, "null")', None, 'R8')],
+         proofs=[dict(at='start', text='lemma_plain_literals();')],
+         ensures=[('C06:null_like_is_exactly_plain_empty_tilde_or_null', 'r == (*style is Plain && sp_null_text(value.spec_bytes()))'),
+                  ('C06:quoted_scalars_are_never_null_like', '(*style is SingleQuoted || *style is DoubleQuoted) ==> !r')],
+         canaries=['C06:null_like_is_exactly_plain_empty_tilde_or_null']),
+    dict(src='src/parse_scalars.rs', path='fn scalar_is_nullish_for_option', props=['C06', 'C05'],
+         rewrites=[(r'value\.is_empty\(\)', 'pl_str_is_empty(value)', None, 'R8'), (r'value == "~"', 'pl_str_eq(value, "~")', None, 'R8'),
+                   (r'value\.eq_ignore_ascii_case\("null"\)', 'pl_str_eq_ci(value, "null")', None, 'R8')],
+         proofs=[dict(at='start', text='lemma_plain_literals();')],
+         ensures=[('C06:none_is_exactly_unquoted_empty_or_plain_tilde_or_null', '''r == ((value.spec_bytes().len() == 0 && !(*style is SingleQuoted || *style is DoubleQuoted))
+                        || (*style is Plain && sp_null_text(value.spec_bytes())))'''),
+                  ('C06:quoted_scalars_are_never_none', '(*style is SingleQuoted || *style is DoubleQuoted) ==> !r')],
+         canaries=['C06:none_is_exactly_unquoted_empty_or_plain_tilde_or_null']),
+    _callee([x for x in _evu.ITEMS if x.get('path') == 'impl YamlDeserializer/fn expect_map_start'][0]),
+    dict(src=D, path=YD + 'fn deserialize_option', id='YamlDeserializer::deserialize_option',
+        impl_header="impl<'de, 'e> YamlDeserializer<'de, 'e>", props=['C05', 'C06', 'C01'],
+        pre_rewrites=[(r"fn deserialize_option<V: Visitor<'de>>\(self, visitor: V\) -> Result<V::Value, Self::Error>",
+                       'fn deserialize_option(mut self, visitor: Vis) -> Result<VisVal, Error>', 1, 'R9')],
+        rewrites=[(r'if tag == &SfTag::Null', 'if *tag == SfTag::Null', 1, 'R15'),
+                  (r'scalar_is_nullish_for_option\(s, style\)', 'scalar_is_nullish_for_option(s.as_ref(), style)', 1, 'R15')],
+        ensures=[('C05:option_is_none_exactly_for_an_absent_or_null_like_node_else_the_node_is_handed_on_untouched', '''r is Ok ==> ({
+                let rest0 = old(self.ev).rest();
+                if self.in_key && self.key_empty_map_node { r == vis_none(visitor) && rest0.len() >= 2 && rest0[0] is MapStart && rest0[1] is MapEnd }
+                else if rest0.len() == 0 || rest0[0] is MapEnd || rest0[0] is SeqEnd || opt_none_scalar(rest0[0]) { r == vis_none(visitor) }
+                else { r == vis_some(visitor, rest0, self.cfg, self.in_key, self.key_empty_map_node) } })''')],
+        proofs=[dict(at='start', ghost=True, text='let ghost rest0 = self.ev.rest();'),
+                dict(before='return visitor.visit_none();', label='C05:an_empty_mapping_key_is_consumed_whole', text='assert(this.ev.rest() == rest0.skip(2));'),
+                dict(before_re=r'visitor\.visit_none\(\)\s*\}\s*Some\(Ev::Scalar \{\s*value: s', label='C05:a_null_tag_scalar_is_consumed', text='assert(this.ev.rest() == rest0.skip(1));'),
+                dict(before_re=r'visitor\.visit_none\(\)\s*\}\s*Some\(Ev::MapEnd', label='C05:a_null_like_scalar_is_consumed', text='assert(this.ev.rest() == rest0.skip(1));'),
+                ],
+        canaries=['C05:option_is_none_exactly_for_an_absent_or_null_like_node_else_the_node_is_handed_on_untouched']),
+    dict(src=D, path=YD + 'fn deserialize_unit', id='YamlDeserializer::deserialize_unit',
+        impl_header="impl<'de, 'e> YamlDeserializer<'de, 'e>", props=['C05', 'C06', 'C01'],
+        pre_rewrites=[(r"fn deserialize_unit<V: Visitor<'de>>\(self, visitor: V\) -> Result<V::Value, Self::Error>",
+                       'fn deserialize_unit(mut self, visitor: Vis) -> Result<VisVal, Error>', 1, 'R9')],
+        rewrites=[(r'scalar_is_nullish\(s, style\)', 'scalar_is_nullish(s.as_ref(), style)', 1, 'R15')],
+        ensures=[('C05:unit_accepts_only_absence_or_a_plain_null_like_scalar', '''({ let rest0 = old(self.ev).rest();
+                match r { Ok(_) => r == vis_unit(visitor) && (rest0.len() == 0 || rest0[0] is MapEnd || rest0[0] is SeqEnd || unit_scalar(rest0[0])),
+                          Err(_) => true } })''')],
+        proofs=[dict(at='start', ghost=True, text='let ghost rest0 = self.ev.rest();'),
+                dict(before_re=r'visitor\.visit_unit\(\)\s*\}\s*// End of a container|visitor\.visit_unit\(\)\s*\}\s*Some\(Ev::MapEnd', label='C05:a_null_like_scalar_is_consumed', text='assert(this.ev.rest() == rest0.skip(1));')],
+        canaries=['C05:unit_accepts_only_absence_or_a_plain_null_like_scalar']),
+    # ---- streaming sequence access (C05: a sequence ends exactly at its SeqEnd; elements are handed on in place) ----
+    dict(src=D, path='impl de::Deserializer for YamlDeserializer/fn deserialize_seq/' + 'struct SA'),
+    dict(src=D, path='impl de::Deserializer for YamlDeserializer/fn deserialize_seq/' + 'impl de::SeqAccess for SA/fn next_element_seed', id='SA::next_element_seed', impl_header="impl<'de, 'e> SA<'de, 'e>",
+         props=['C05', 'C16', 'C01'],
+         rewrites=[(r"fn next_element_seed<T>\(&mut self, seed: T\) -> Result<Option<T::Value>, Error>\s*where\s*T: de::DeserializeSeed<'de>,",
+                    'fn next_element_seed(&mut self, seed: ElemSeed) -> Result<Option<ElemVal>, Error>', 1, 'R9'),
+                   (r'let de = YamlDeserializer::new\(self\.ev, self\.cfg\);\s*seed\.deserialize\(de\)\.map\(Some\)\.map_err\(\|e\| \{\s*attach_alias_locations_if_missing\(e, reference_location, defined_location\)\s*\}\)',
+                    'seed_deserialize_element(seed, self.ev, self.cfg, reference_location, defined_location)', 1, 'R8+R18')],
+         ensures=[('C05:a_sequence_ends_exactly_at_its_end_event_which_is_left_for_the_caller', '''({ let rest0 = old(self).ev.rest();
+                match r {
+                    Ok(None) => rest0.len() > 0 && rest0[0] is SeqEnd && final(self).ev.rest() == rest0,
+                    Ok(Some(_)) => rest0.len() > 0 && !(rest0[0] is SeqEnd),
+                    Err(_) => true } })'''),
+                  ('C05:an_element_is_handed_to_the_seed_at_the_untouched_cursor', '''({ let rest0 = old(self).ev.rest();
+                rest0.len() > 0 && !(rest0[0] is SeqEnd) && r is Ok ==>
+                    exists|rl: Location| r == #[trigger] elem_seed_result(seed, rest0, old(self).cfg, rl, rest0[0].spec_location()) })'''),
+                  ('config_unchanged', 'final(self).cfg == old(self).cfg')],
+         canaries=['C05:a_sequence_ends_exactly_at_its_end_event_which_is_left_for_the_caller']),
 ]
